@@ -9,7 +9,7 @@ use log::debug;
 
 use crate::{
     errors::{ensure, unsupported_err, Result},
-    packet::{PacketHeader, PacketTrait},
+    packet::{PacketHeader, PacketTrait, MAX_PARTIAL_LEN},
     parsing_reader::BufReadParsing,
     ser::Serialize,
     types::{CompressionAlgorithm, PacketHeaderVersion, PacketLength, Tag},
@@ -343,6 +343,11 @@ impl<R: io::Read> CompressedDataPartialGenerator<R> {
         ensure!(
             chunk_size.is_power_of_two(),
             "chunk size must be a power of two"
+        );
+        ensure!(
+            chunk_size <= MAX_PARTIAL_LEN,
+            "chunk size must be at most {}",
+            MAX_PARTIAL_LEN
         );
         Ok(Self {
             source,
